@@ -85,6 +85,7 @@ def main(argv):
     stubs_used = set()
     unfinished = []
     units_done = 0
+    unit_classes = {}
     slice_s = h.slice_s if hasattr(h, 'slice_s') else 6.0
     deadline = t0 + budget
 
@@ -110,6 +111,7 @@ def main(argv):
                     agg[k] += r.get(k, 0)
                 for c, n in r['classes'].items():
                     classes[c] = classes.get(c, 0) + n
+                    unit_classes.setdefault(i, set()).add(c)
                 violations.extend({'unit': r['unit'], **v} for v in r['violations'])
                 mismatches.extend({'unit': r['unit'], **v} for v in r['witness_mismatch'])
                 degraded.extend({'unit': r['unit'], **v} for v in r['degraded'])
@@ -199,7 +201,23 @@ def main(argv):
         harness_err.append('vacuity: outcome classes never reached: %s' % missing)
     if agg['paths'] == 0:
         harness_err.append('no path explored')
+    # per-unit vacuity: a unit that declares the outcome class it exists for must reach it
+    if not unfinished and not crashes:
+        dead = [units[i] for i in range(len(units)) if units[i].get('must_reach')
+                and i in unit_classes and units[i]['must_reach'] not in unit_classes[i]]
+        if dead and not violations:
+            harness_err.append('vacuity: %d unit(s) never reached their declared outcome class, e.g. %s'
+                               % (len(dead), json.dumps(dead[0])[:300]))
 
+    single = {}
+    for i, cs in unit_classes.items():
+        if len(cs) == 1:
+            single.setdefault(next(iter(cs)), []).append(units[i])
+    if os.environ.get('VERIF_AUDIT'):
+        for c, us in sorted(single.items()):
+            print('AUDIT %d unit(s) reach only class %r:' % (len(us), c))
+            for u in us[:40]:
+                print('   ', json.dumps(u)[:260])
     # ---------------- evidence
     ev = {
         'property_id': prop, 'tier': tier, 'seed': seed, 'level': 'model_checking',
@@ -218,6 +236,7 @@ def main(argv):
             'solver_seconds': round(agg['solver_time'], 2),
             'boundary_witnesses': agg['boundary_witnesses'],
             'outcome_classes': classes,
+            'units_reaching_a_single_outcome_class': {c: len(us) for c, us in sorted(single.items())},
             'units_total': len(units), 'units_completed': units_done,
             'unfinished_units': unfinished[:20],
             'degraded_paths': degraded[:20], 'degraded_count': len(degraded),
